@@ -19,6 +19,8 @@ def entropy(*X):
     (provided as a single input) or to calculate the joint entropy between two
     variables (provided as a series of inputs)
     """
+    # plain sequences (lists, tuples) compare as a whole with `==`: work on arrays
+    X = [np.asarray(x) for x in X]
     n_instances = len(X[0])
     H = 0
     for classes in itertools.product(*[set(x) for x in X]):
